@@ -10,6 +10,7 @@ import itertools
 
 from lib import Check, COMMON_TRUSTED
 import c04_gen as G
+import c05_gen as X          # round 4: teaches c04_gen's tree walkers `switch` / `execute … run {…}` / Hardcode.repeat / methods
 
 PROP = "C05"
 
@@ -289,18 +290,47 @@ def main(tier: str) -> int:
         "Model.Cond.parse_condition on the formula the source text was printed from; bracket token for while/do-while, bare token list for "
         "for), not predicted by the harness; for-initialiser and step are single assignment statements (property C01)",
         "a loop body written without braces is outside Model.Loop: probed directly (accepted => the emitted code must behave as the source)",
-        "outside the model: async loops, switch (C06); Minecraft's maxCommandChainLength and recursion limits are not modelled "
-        "(theorems say: for every terminating source loop there is fuel ...)",
+        "Model/LoopSwitch.v (round 4): hand-written extension of Model.Loop's statement tree by `switch` (case bodies lowered like function bodies, then "
+        "Model.Switch.compile_switch — both lowerings, property C06's port of switch() / parse_switch()) and by `execute if score … run { … }` blocks "
+        "(add_arrow_function('anonymous')); class methods and Hardcode.repeat arrow functions enter as further user functions / repeated statement lists; "
+        "tied by exact text equality of every function under the item's pack_format / #forcebst (Run.C05.xmismatches)",
+        "outside the model: async loops, `switch … with`, Hardcode.switch; the statement SPLITTING of the tokenizer (which statement a token belongs to) is "
+        "not modelled — it is exercised by the correspondence: a statement glued to / cut off a loop changes the emitted text and the mcvm run; "
+        "Minecraft's maxCommandChainLength and recursion limits are not modelled (theorems say: for every terminating source loop there is fuel ...)",
         "mcvm.py + the source-level interpreter in c04_gen.py: untrusted, used only to search for failing inputs",
     ]
     ck.proof(extra_targets=["Run/C05.vo"])
     items = gen_items(ck.rng, tier)
+    items += X.long_chain_items(ck.rng, tier == "quick")
     st = G.check_programs(ck, items, tier, "a loop does not iterate as its source says")
     body_forms = run_loop_body_form_probes(ck)
-    distinct = len({G.jmc_src(it) + str(it["cert"]) for it in items})
+    # round 4: loops nested in / around switch statements (both lowerings), blocks, methods, arrow functions: Model.LoopSwitch
+    xitems = X.x_items(ck.rng, tier)
+    xst = X.check_xprograms(ck, xitems, tier, "a loop nested in / around a switch statement or block does not iterate as its source says, "
+                                             "or the statements after it do not run exactly once")
+    distinct = len({G.jmc_src(it) + str(it["cert"]) for it in items}) + \
+        len({G.jmc_src(it) + str((it["cert"], it.get("pack_format"), it.get("forcebst"))) for it in xitems})
     ck.cov.update(dict(
         loop_body_form_probes=body_forms,
-        evaluations=len(items), distinct_nontrivial=distinct, programs=len(items),
+        evaluations=len(items) + len(xitems), distinct_nontrivial=distinct, programs=len(items) + len(xitems),
+        round4=dict(programs=len(xitems), streams=xst["streams"], shape_histogram=xst["tags"], semantic_runs=xst["n_runs"],
+                    semantic_runs_skipped_divergent=xst["n_skipped"], semantic_failures=len(xst["sem_fail"]),
+                    text_differs=len(xst["bad"]), refused_by_compiler=xst["n_errors"], max_source_iterations_histogram=xst["iters_hist"],
+                    lowerings=sorted({f"pack_format={it.get('pack_format')} forcebst={bool(it.get('forcebst'))}" for it in xitems}),
+                    follow_matrix=dict(enclosures=sorted({it["fm"]["encl"] for it in xitems if it.get("fm")}),
+                         combos=len({tuple(sorted(it["fm"].items())) for it in xitems if it.get("fm")})),
+                    rule="Model.LoopSwitch (xcompile_stmts) vs the real compiler, every function compared by exact text in Coq (Run.C05.xmismatches), under "
+                         "the item's own pack_format / #forcebst.  case-loop-matrix: label profiles (consecutive incl. negative / zero / positive starts, single "
+                         "negative label; macro only: unsorted, sparse, int32 extremes, `default` in every position but the first) x every case holding a loop "
+                         "{while, do-while, for; plain and || conditions} as first / middle / last / only statement x follower {say, score change + say, for, "
+                         "while, do-while, chain, switch, two says, none} x `break` or not x label spelling {`case n:`, `case n :`, first statement on the "
+                         "label's line} x lowering {default pack format, 15, #forcebst at 48: binary search tree; 16, 48: macro dispatch}; the switched "
+                         "variable ranges over every label, both neighbours of the label range, gaps and 0.  follow-matrix: a statement following a loop in "
+                         "every enclosing block {function, if / else-if / else branch, for / while / do-while body, class method, execute-run block, "
+                         "Hardcode.repeat arrow function, case with negative / zero / positive label, default} x loop kind x follower, loop first in the "
+                         "block or after a statement.  switch-in-loop: a for / while / do-while driving the switched variable through all labels and past "
+                         "both ends, every case holding a loop + follower.  random-nested-switch: random nests of all statement kinds with >= 1 loop and "
+                         ">= 1 switch / block / repeat, labels fitting the lowering"),
         rule="a case = one function body compiled by the real compiler (one pack each); streams: loop kind {while, do-while, for} x condition "
              "kind {atomic, atom && ||-group, ||-group && atom, top-level || group, || with a variable the body clears} x body kind {counter only, "
              "2 cmds, chain with else, chain ending in an ||-else-if without else, nested for, body flipping the tested variables, single if with "
@@ -312,7 +342,10 @@ def main(tier: str) -> int:
              "every chain position (lone if, first with else, else, last else-if, else-if before else, middle, last of 3, else of 3, all bodies brace-less), "
              "followed in the same block by nothing / for / while / do-while / for with || / another brace-less else-if loop + loop / say / brace-less chain, "
              "inside a function, loop body or branch; `for` counters take part in the enumeration of initial states (stale value makes the test true while the "
-             "branch is not taken); random nests with brace-less bodies.  Every case contains a loop, so distinct_nontrivial = distinct sources",
+             "branch is not taken); random nests with brace-less bodies.  Round 4: chains of 5-7 branches with OVERLAPPING conditions (thresholds up / down, "
+             "every other condition with helper lines, tests over several variables) with and without else inside for / while / do-while bodies, the loop driving "
+             "the tested variable through every threshold (long-chain-in-loop, deterministic); and the Model.LoopSwitch streams described under round4.  "
+             "Every case contains a loop, so distinct_nontrivial = distinct sources",
         correspondence="text of the user function and of every private function == Model (compile_body), compared in Coq",
         disagreements_checked=len(st["bad"]), semantic_runs=st["n_runs"], semantic_runs_skipped_divergent=st["n_skipped"],
         semantic_failures=len(st["sem_fail"]), compile_errors_expected_by_model=st["n_errors"],
@@ -328,4 +361,8 @@ def main(tier: str) -> int:
 
 
 def replay(path: str) -> int:
+    import json
+    rp = json.loads(open(path).read())
+    if rp.get("kind") == "semantic-failure" and rp.get("xjob"):
+        return X.xreplay(rp, PROP)
     return G.replay_file(path, PROP)
